@@ -15,6 +15,11 @@
           adds: a K d0lints|d1lints.. ; p K c0/c1/..|c0/c1/..   docs: start:keyid:ntoks,...|...   steps: l i | g <cop without register>
           ->  per lint step  lints|calls  or  P ,  joined by " ; "   (calls = pattern evaluations = sum over MISSED chunks of
               its token count x the number of enabled pattern rules)
+     Q adds # docs # steps         the same with the chunk key CONCRETE (C11ChunkKey.run_token_history over C05's Cache.v)
+          adds: a K d0lints|d1lints.. ; p K <word: code points joined by '.'> <tag>
+          docs: <source: code points joined by '.', "-" = empty> ! <chunk>/<chunk>/..  ("~" = no chunk; chunk = kind:start:end,..  "-" = empty slice)
+                joined by " | ";  kind = 2*id + (1 if is_word)
+          ->  as K (the token hash is an interning table in this driver: injective)
      L <ngroups> ; gop ; gop ... # idx:start,idx:n,...          build groups, then groups[0].lint(doc)
           gops: a i K lints | p i K lints/lints/... | m i j | A i v | g i <cop without register>
           lints: s-e-id,s-e-id  ("-" = none)
@@ -143,6 +148,49 @@ let () =
                  | Ok ls ->
                      let toks = List.fold_left (fun a k -> a + (try Hashtbl.find ntoks (int_of_nat k) with Not_found -> 0)) 0 missed in
                      Printf.sprintf "%s|%d" (string_of_lints ls) (toks * int_of_nat en)) outs))
+           | _ -> print_endline "?")
+      | 'Q' ->
+          (match String.split_on_char '#' body with
+           | [adds; docs; steps] ->
+               let semis x = List.filter_map (fun o -> match words o with [] -> None | w -> Some w) (String.split_on_char ';' x) in
+               let bars x = List.map String.trim (String.split_on_char '|' x) in
+               let cps x = if x = "-" || x = "" then [] else List.map (fun c -> n_of_int (int_of_string c)) (String.split_on_char '.' x) in
+               let adds = List.map (fun w -> match w with
+                 | ["a"; k; per] -> QStruct (key_of_hex k, List.map lints_of (bars per))
+                 | ["p"; k; word; tag] -> QPattern (key_of_hex k, cps word, nat tag)
+                 | _ -> failwith "qadd") (semis adds) in
+               let tok_of t = match String.split_on_char ':' t with
+                 | [k; a; b] -> (n_of_int (int_of_string k), { sstart = nat a; send = nat b })
+                 | _ -> failwith "qtok" in
+               let srcs = List.map (fun dspec -> match String.split_on_char '!' dspec with
+                 | [src; chs] ->
+                     let chs = String.trim chs in
+                     let chunks = if chs = "~" then [] else
+                       List.map (fun c -> List.map tok_of (commas (String.trim c))) (String.split_on_char '/' chs) in
+                     (cps (String.trim src), chunks)
+                 | _ -> failwith "qdoc") (bars (String.trim docs)) in
+               let steps = List.map (fun w -> match w with
+                 | ["l"; i] -> SLint (nat i)
+                 | "g" :: c :: rest -> SCfg (cop_of (c :: "0" :: rest))
+                 | _ -> failwith "hstep") (semis steps) in
+               (* the token hash: an interning table (injective); id -> number of tokens, for the evaluation count *)
+               let ids : (string, int) Hashtbl.t = Hashtbl.create 16 in
+               let lens : (int, int) Hashtbl.t = Hashtbl.create 16 in
+               let tok_hash (ts : n tok list) : n =
+                 let s = String.concat "," (List.map (fun (k, sp) ->
+                   Printf.sprintf "%d:%d:%d" (int_of_n k) (int_of_nat sp.sstart) (int_of_nat sp.send)) ts) in
+                 let id = match Hashtbl.find_opt ids s with
+                   | Some i -> i
+                   | None -> let i = Hashtbl.length ids in Hashtbl.replace ids s i; Hashtbl.replace lens i (List.length ts); i in
+                 n_of_int id in
+               (match run_token_history tok_hash adds srcs steps with
+                | Panic _ -> print_endline "P!"
+                | Ok outs ->
+                    print_endline (String.concat " ; " (List.map (fun ((r, missed), en) -> match r with
+                      | Panic _ -> "P"
+                      | Ok ls ->
+                          let toks = List.fold_left (fun a (_, h) -> a + (try Hashtbl.find lens (int_of_n h) with Not_found -> 0)) 0 missed in
+                          Printf.sprintf "%s|%d" (string_of_lints ls) (toks * int_of_nat en)) outs)))
            | _ -> print_endline "?")
       | 'L' ->
           (match String.split_on_char '#' body with
